@@ -9,12 +9,12 @@ Variable d : defects.
 
 Lemma p_exp_S (f:nat) (k:nat) (ts:list tok) :
   p_exp d (S f) k ts =
-    if (N <=? k)%nat then
+    if (NLEV <=? k)%nat then
       match ts with
       | [] => PErr
       | t :: r =>
         (* a thunk: the extracted code is strict, the operand must only be parsed when the token is unary *)
-        let unary := fun (_:unit) => match p_exp d f N r with
+        let unary := fun (_:unit) => match p_exp d f NLEV r with
                                      | POk (a, r') => POk (Un (tok_name t) a, r')
                                      | PErr => PErr | POut => POut
                                      end in
